@@ -185,7 +185,7 @@ def kani_units(report, tier):
     kc.add(Harness("canary_must_fail", "        let a: f64 = kani::any();\n        let x = a * quantities::length::INCH;\n        let y = a * quantities::length::FOOT;\n        assert!((x + y).unit() == quantities::length::FOOT);\n",
                    expect="fail", key="canary", symbolic=False))
     report.bounds["kani_units"] = "every f64 bit pattern for both amounts, every ordered unit pair (symbolic indices) of 13 catalogue types and a synthetic type"
-    kc.run(report, timeout=900)
+    kc.run(report, timeout=(480 if tier == "quick" else 3000))
     confirm_failures(report)
 
 
